@@ -244,7 +244,9 @@ def main():
                        'not_decided_by_this_check': PROP_NOTES.get(prop, [])},
           'assumptions': sorted(set(trusted)) + assumptions}
     if kani_res: ev['coverage']['kani'] = [{k: v for k, v in h.items() if k != 'log'} for h in kani_res['harnesses']]
-    if selftest is not None: ev['coverage']['mutation_selftest'] = selftest
+    if selftest is not None:
+        ev['coverage']['mutation_selftest'] = selftest
+        ev['coverage']['mutation_selftest_summary'] = {'mutants': len(selftest), 'as_expected': sum(1 for m in selftest if m.get('as_expected')), 'skipped_because_their_anchor_is_not_in_the_current_tree': [m['mutant'] for m in selftest if 'skipped' in str(m.get('result', ''))]}
     ev['coverage']['assumed_contracts_compared_with_the_verified_text'] = xc_checked
     if bounded_res is not None: ev['coverage']['bounded_checks'] = [{k: v for k, v in bounded_res.items() if k != 'log'}]
     with open(os.path.join(a.out, prop + '.json'), 'w') as f: json.dump(ev, f, indent=1)
